@@ -6454,8 +6454,9 @@ get_req_headers (struct MHD_Connection *c, bool process_footers)
 
 /**
  * Update the 'last_activity' field of the connection to the current time
- * and move the connection to the head of the 'normal_timeout' list if
- * the timeout for the connection uses the default value.
+ * and move the connection to its place (the head, unless the clock has
+ * jumped back) in the sorted 'normal_timeout' list if the timeout for
+ * the connection uses the default value.
  *
  * @param connection the connection that saw some activity
  */
@@ -6482,13 +6483,13 @@ MHD_update_last_activity_ (struct MHD_Connection *connection)
 #if defined(MHD_USE_POSIX_THREADS) || defined(MHD_USE_W32_THREADS)
   MHD_mutex_lock_chk_ (&daemon->cleanup_connection_mutex);
 #endif
-  /* move connection to head of timeout list (by remove + add operation) */
+  /* move connection to head of timeout list (by remove + add operation);
+     the head is not the proper place if the clock has jumped back */
   XDLL_remove (daemon->normal_timeout_head,
                daemon->normal_timeout_tail,
                connection);
-  XDLL_insert (daemon->normal_timeout_head,
-               daemon->normal_timeout_tail,
-               connection);
+  MHD_normal_timeout_insert_sorted_ (daemon,
+                                     connection);
 #if defined(MHD_USE_POSIX_THREADS) || defined(MHD_USE_W32_THREADS)
   MHD_mutex_unlock_chk_ (&daemon->cleanup_connection_mutex);
 #endif
@@ -7854,16 +7855,18 @@ MHD_get_connection_info (struct MHD_Connection *connection,
  * active connection is at the head. #MHD_get_timeout64() and the epoll
  * event loop check only the tail of the list, so a connection with
  * an old activity time must not be put in front of more recently
- * active connections.
+ * active connections. A connection stamped with the current time is
+ * the most recently active one (and inserted at the head without any
+ * walk over the list) unless the clock has jumped back.
  * @remark The caller must hold the 'cleanup_connection_mutex'.
  *
  * @param daemon the daemon to use
  * @param connection the connection to insert, must not be in any
  *                   timeout list
  */
-static void
-normal_timeout_insert_sorted (struct MHD_Daemon *daemon,
-                              struct MHD_Connection *connection)
+void
+MHD_normal_timeout_insert_sorted_ (struct MHD_Daemon *daemon,
+                                   struct MHD_Connection *connection)
 {
   struct MHD_Connection *pos;
 
@@ -7954,8 +7957,8 @@ MHD_set_connection_option (struct MHD_Connection *connection,
                        connection);
         connection->connection_timeout_ms = ((uint64_t) ui_val) * 1000;
         if (connection->connection_timeout_ms == daemon->connection_timeout_ms)
-          normal_timeout_insert_sorted (daemon,
-                                        connection);
+          MHD_normal_timeout_insert_sorted_ (daemon,
+                                             connection);
         else
           XDLL_insert (daemon->manual_timeout_head,
                        daemon->manual_timeout_tail,
